@@ -161,6 +161,7 @@ fn run_step(boc: &Arc<BocData>, st: &Step, max_write: usize, hash_seed: u64) -> 
         app_rows: None,
         app_files: 1,
         app_console: false,
+        app_legacy_date: false,
         net_faults: vec![],
         fs_faults: FsFaultSpec::default(),
         knobs: Knobs { max_write, max_read: usize::MAX },
@@ -532,6 +533,7 @@ impl Engine for C14 {
                     app_rows: None,
                     app_files: 1,
                     app_console: false,
+                    app_legacy_date: false,
                     net_faults: vec![],
                     fs_faults: FsFaultSpec::default(),
                     knobs: Knobs::default(),
